@@ -294,6 +294,8 @@ pub struct Runner {
     pub passes: Vec<Vec<Ev>>,
     /// last well-formed recipe of every node
     pub good_recipes: BTreeMap<AKey, Vec<ROp>>,
+    /// thread dump taken when a barrier gave up in enhance_hot_reloading mode
+    pub lost_detail: String,
 }
 
 pub fn candidates_of(c: &WCase) -> BTreeSet<AKey> {
@@ -348,6 +350,7 @@ impl Runner {
             main_tid: crate::procfs::gettid(),
             passes: Vec::new(),
             good_recipes: c.nodes.iter().map(|n| ((n.kind, n.id.clone()), n.ops.clone())).collect(),
+            lost_detail: String::new(),
         }
     }
 
@@ -512,7 +515,7 @@ impl Runner {
     /// Quiescence barrier; collects the events of every pass and polls reload ids after every pass.
     /// Returns `false` if the sentinel's notified change was never applied (a lost reload): in hot_reload()
     /// mode after 4000 complete request/answer round trips that all started after the notification was sent;
-    /// in enhance_hot_reloading mode when the reloader thread is asleep with zero CPU over three spaced samples.
+    /// in enhance_hot_reloading mode when every other thread of the process is asleep with zero CPU over five samples spaced by >= 300 ms.
     #[must_use]
     pub fn barrier(&mut self) -> bool {
         self.passes.clear();
@@ -548,10 +551,12 @@ impl Runner {
                     break;
                 }
             } else if rounds % 64 == 0 {
-                // is the reloader thread asleep without having consumed any CPU since the last sample?
+                // is every other thread of this process (the reloader, helper threads of recipes, ...) asleep
+                // without having consumed any CPU since the last sample? Then nothing can apply the change any more.
                 let me = crate::procfs::self_threads();
-                let st: Vec<_> = me.iter().filter(|t| t.comm.starts_with("assets_hot_relo")).collect();
-                let all_asleep = !st.is_empty() && st.iter().all(|t| t.state == 'S');
+                let my_tid = crate::procfs::gettid();
+                let st: Vec<_> = me.iter().filter(|t| t.tid != my_tid).collect();
+                let all_asleep = st.iter().any(|t| t.comm.starts_with("assets_hot_relo")) && st.iter().all(|t| t.state == 'S');
                 let ticks: u64 = st.iter().map(|t| t.ticks).sum();
                 match last_sample {
                     Some((t0, ticks0)) if all_asleep && ticks0 == ticks => {
@@ -565,8 +570,17 @@ impl Runner {
                         last_sample = Some((std::time::Instant::now(), ticks));
                     }
                 }
-                if idle_samples >= 3 {
+                if idle_samples >= 5 {
                     lost = true;
+                    // diagnostics: what every thread is waiting in
+                    let dump: Vec<String> = me
+                        .iter()
+                        .map(|t| {
+                            let w = std::fs::read_to_string(format!("/proc/self/task/{}/wchan", t.tid)).unwrap_or_default();
+                            format!("{}:{}:{}:{}", t.comm, t.tid, t.state, w.trim())
+                        })
+                        .collect();
+                    self.lost_detail = dump.join(" ");
                     break;
                 }
             }
